@@ -38,6 +38,7 @@ pub fn plan_ops(cat: &Catalog, sql: &str, cfg: &ExecCfg) -> Vec<String> {
             let p: Arc<dyn TableProvider> = match &cfg.layout {
                 Layout::MemSingle => Arc::new(MemoryTable::new(t.schema(), t.single_batch())),
                 Layout::MemBatches => Arc::new(MemoryTable::new(t.schema(), t.batches())),
+                Layout::MemClustered => Arc::new(MemoryTable::new(t.schema(), t.clustered_batches())),
                 Layout::Parquet { files, rg } => {
                     if dir.is_none() { dir = Some(scratch_dir()); }
                     let d = dir.as_ref().unwrap().join(&t.name);
